@@ -55,7 +55,7 @@ def run_shape(shape):
         meta = [(m.call_fn(api.meta[k], [ta]), m.call_fn(api.meta[k], [tb])) for k in ('delay', 'duration', 'repeat', 'cycle_duration')]
         return (m.load(ga), m.load(gb), meta)
 
-    rs = m.explore(h, time_budget=150)
+    rs = m.explore(h, time_budget=90)
     res = new_result(shape)
     from mirsym.models import eq_values
     for r in rs:
@@ -79,8 +79,10 @@ def run_shape(shape):
             return z3.BoolVal(True)
         for x, y in meta:
             diffs.append(z3.Not(same(x, y)))
+        if len([x for x in res['sat'] if x]) >= 3:
+            res['truncated'] = True; break          # enough counterexamples for this shape: the rest adds nothing
         res['obligations'] += 1
-        st, model = decide(list(r.pc) + [z3.Or(diffs)])
+        st, model = decide(list(r.pc) + [z3.Or(diffs)], timeout_ms=8000)
         if st == 'unsat': res['discharged'] += 1
         elif st == 'sat':
             vs = pos + [x for row in vals for x in row] + [ap.p, ap.tag, ap.rep, ap.rev]
